@@ -36,6 +36,9 @@ def run(tier, scratch, drv, only_cases=None):
         cases.append({"cfg": {"kind": "srv2busy"},
                       "obs": [{"k": "op", "op": "listen", "res": "ok"}, {"k": "op", "op": "close", "res": "ok|err"},
                               {"k": "op", "op": "dial", "res": "err"}]})
+        cases.append({"cfg": {"kind": "wsupgrade"},
+                      "obs": [{"k": "op", "op": "listen", "res": "ok"}, {"k": "op", "op": "close", "res": "ok|err"},
+                              {"k": "op", "op": "halfopen", "res": "closed"}]})
         for i, c in enumerate(cases):
             c["n"] = i + 1
         res["model"] = {"states": states, "transitions": gen, "wall_s": round(wall, 2), "invariants_checked": True}
